@@ -226,6 +226,12 @@ where
     C: 'a,
 {
     fn from_tlv(element: &TLVElement<'a>) -> Result<Self, Error> {
+        if !element.is_empty() {
+            // `iter()` relies on the element being a container: an element of
+            // another type coming from the peer must be an error, not a panic
+            element.container()?;
+        }
+
         Ok(Self::new_unchecked(element.clone()))
     }
 }
